@@ -176,7 +176,7 @@ def explore(ctx):
     if ctx.get("replay"):
         rp = json.load(open(ctx["replay"]))
         if "schema" in rp.get("case", {}):
-            cases = [rp["case"]]
+            cases = [dict(rp["case"], blind=False)] * 3
     impl = C.run_exec_parallel(cases, nproc=16)
     terms, idx = [], []
     failures, samples = [], []
@@ -215,6 +215,35 @@ def explore(ctx):
             # the model's decision is proved equal to the specification (C15_sign_decision): a disagreement is the failing input
             what = "issuer SIGNED a vector the specification refuses" if r["impl"] == "ok" else "issuer REFUSED a conformant vector"
             failures.append({"class": None, "witness": True, "text": f"{what}: impl={r['impl']} model={m} mode={c['mode']}", "case": c})
+    # ---- the same vectors through blind issuance (the issuer's own claims get the same per-claim checks)
+    bsel = [i for i in idx if i % 3 == 0]
+    bops = [dict(cases[i], blind=True) for i in bsel]
+    bimpl = C.run_exec_parallel(bops, nproc=16)
+    bterms = [coq_case(cases[i], r.get("rx", [])) for i, r in zip(bsel, bimpl)]
+    bmodel = C.run_model("C15", HEADER, bterms, runner="run_blinds", shard_size=max(50, len(bterms) // 16 + 1), timeout=1800, tag="blind")
+    hist["blind_impl"] = {}
+    for i, op, r, m in zip(bsel, bops, bimpl, bmodel):
+        if r.get("r") != "ok" or "impl" not in r:
+            failures.append({"class": None, "witness": False, "text": f"harness failure (blind) {json.dumps(r)[:200]}", "case": op})
+            continue
+        key = f"{cases[i]['mode']}:{r['impl']}"
+        hist["blind_impl"][key] = hist["blind_impl"].get(key, 0) + 1
+        probs = []
+        if r["impl"] == "ok":
+            if r.get("unblind"):
+                probs.append(f"blind credential does not unblind: {r['unblind']}")
+            for k in ("sig_ok", "handle_ok", "recorded", "claims_same", "value_same", "rev_index_ok"):
+                if not r.get("unblind") and not r.get(k):
+                    probs.append(f"blind-issued credential: {k} is false")
+        if r["impl"] == "err" and not r.get("unchanged", True):
+            probs.append("blind_sign_credential returned an error but changed the registry")
+        if r["impl"] == "panic":
+            probs.append("blind_sign_credential panicked")
+        if probs:
+            failures.append({"class": None, "witness": True, "text": "; ".join(probs) + f" (mode {cases[i]['mode']}, model {m})", "case": op})
+        elif r["impl"] != m:
+            what = "issuer BLIND-SIGNED own claims the specification refuses" if r["impl"] == "ok" else "issuer REFUSED to blind-sign conformant own claims"
+            failures.append({"class": None, "witness": True, "text": f"{what}: impl={r['impl']} model={m} mode={cases[i]['mode']}", "case": op})
     # schema construction
     sch_cases = []
     labs = ["a", "b", "c", ""]
@@ -231,9 +260,9 @@ def explore(ctx):
         if r.get("impl") != m:
             failures.append({"class": None, "witness": True, "text": f"CredentialSchema::new: impl={r.get('impl')} model={m} labels={s['labels']} blind={s['blind']}", "case": s})
     return {
-        "evaluations": len(cases) + len(sch_cases),
+        "evaluations": len(cases) + len(bops) + len(sch_cases),
         "distinct_nontrivial": len(distinct),
-        "rule": "cases = (credential schema of 1..6 claims over all claim types with 0..2 validators each — length / range with absent, tight and extreme bounds, regexes, any-of lists, also attached to inapplicable types —, claim vector, registry state fresh / identifier active / identifier revoked): conformant vectors and mutated ones (no / two revocation claims, length -1/+1, wrong type at a position, violated validator, inapplicable validator, non-UTF-8 bytes); plus CredentialSchema::new over label / blindable lists with duplicates, empties and unknown labels; BBS and PS; compared with the Coq decision function; returned credentials checked (signature, handle, bookkeeping); distinct by (schema, claims, state)",
+        "rule": "cases = (credential schema of 1..6 claims over all claim types with 0..2 validators each — length / range with absent, tight and extreme bounds, regexes, any-of lists, also attached to inapplicable types —, claim vector, registry state fresh / identifier active / identifier revoked): conformant vectors and mutated ones (no / two revocation claims, length -1/+1, wrong type at a position, violated validator, inapplicable validator, non-UTF-8 bytes); plus CredentialSchema::new over label / blindable lists with duplicates, empties and unknown labels; BBS and PS; compared with the Coq decision function; every third vector also as the issuer's own part of a blind issuance (one more, hidden, claim in the schema) against the Coq decision function of blind_sign_credential; returned credentials checked (signature, handle, bookkeeping); distinct by (schema, claims, state)",
         "samples": samples or [{"schema": cases[0]["schema"], "claims": cases[0]["claims"]}],
         "histograms": hist,
         "failures": failures,
